@@ -123,7 +123,9 @@ impl Property for C12 {
          recovered record is attributed to a batch by its bytes, and only batches whose payloads are all >= 8 pseudo-random \
          bytes are judged), under Always(Flush). (a) crash points ENUMERATED over the \
          recorded I/O trace: every effect boundary, every frame boundary, cuts inside headers and payloads, between files. \
-         (b) for every frame still present in the final WAL image (<= 300 per history, else a generated subset) one aimed \
+         When a crash falls exactly between two frames of a batch, the recovered log additionally gets one entry \
+         whose serialized size is exactly what the record cut by that frame boundary lacked, and is restarted: no part of the \
+         crashed batch may surface. (b) for every frame still present in the final WAL image (<= 300 per history, else a generated subset) one aimed \
          damage of that single frame (crc / len / type / payload bytes), plus 8 images with 2..4 in-place damages each (aimed \
          and unaimed). Oracle after every recovery, for EVERY batch of \
          the history: the recovered positions of its queue inside the batch's range are none, or exactly a suffix ending \
@@ -221,7 +223,68 @@ impl Property for C12 {
                 let where_ = format!("crash at effect {} byte {} ({})", ctx.point.k, ctx.point.b, ctx.class.name());
                 let state = match recover(ctx.image, &crash_dir, case.policy) {
                     Ok(mut recovered) => {
+                        // "Completing" probe: when the crash fell exactly between two frames of a batch, the log holds the
+                        // head of that batch without its tail. Append, on the recovered log, one entry whose serialized
+                        // size is exactly what the record cut by the frame boundary still lacked, and restart: a reader
+                        // that glued the new entry onto the torn head would expose part of the crashed batch.
+                        let mut probed: Option<crate::model::State> = None;
+                        if ctx.class == CrashClass::BetweenFramesOfEntry {
+                            if let (Some(op), Some(Effect::OsWrite { name, off, .. })) = (ctx.inflight, effects.get(ctx.point.k)) {
+                                if let Some(batch) = batches.iter().find(|batch| batch.op == op && batch.payloads.len() >= 2) {
+                                    let cut = *off + ctx.point.b as u64;
+                                    let held: usize = frames
+                                        .iter()
+                                        .filter(|frame| frame.op == op && (frame.name != *name || frame.off + (7 + frame.payload_len) as u64 <= cut))
+                                        .filter(|frame| frame.name < *name || frame.name == *name)
+                                        .map(|frame| frame.payload_len)
+                                        .sum();
+                                    let prefix = 11 + batch.queue.len();
+                                    let mut boundary = prefix;
+                                    for payload in &batch.payloads {
+                                        if boundary >= held && boundary > prefix {
+                                            break;
+                                        }
+                                        boundary += 12 + payload.len();
+                                    }
+                                    let missing = boundary.saturating_sub(held);
+                                    let overhead = 11 + batch.queue.len() + 12;
+                                    if held > prefix && missing >= overhead && missing < 30_000 {
+                                        let payload = crate::util::fill(0xC12C ^ held as u64, missing - overhead, 0);
+                                        let appended = {
+                                            let log = recovered.driver.log.as_mut().unwrap();
+                                            crate::util::guarded(|| log.append_record(&batch.queue, None, &payload[..]).is_ok())
+                                        };
+                                        let _ = recovered.driver.tracer.feed(mrecordlog::verif_hooks::take_events());
+                                        recovered.driver.close()?;
+                                        if appended == Ok(true) {
+                                            env.class("crash:completing-entry-probe");
+                                            if let Ok(mut second) = crate::recover::recover_dir(&crash_dir, case.policy) {
+                                                second.driver.close()?;
+                                                probed = Some(second.state);
+                                            }
+                                        }
+                                    }
+                                }
+                            }
+                        }
                         recovered.driver.close()?;
+                        if let Some(second_state) = probed {
+                            // the probe record legitimately takes the position the crashed batch never got: on that queue a
+                            // recovered record belongs to a batch only if it carries that batch's bytes
+                            let mut reused_here = reused.clone();
+                            if let Some(op) = ctx.inflight {
+                                if let Some(batch) = batches.iter().find(|batch| batch.op == op) {
+                                    reused_here.insert(batch.queue.clone());
+                                }
+                            }
+                            if let Err(msg) = check_batches(&batches, &truncs, &reused_here, &second_state) {
+                                return Err(exec.failure(
+                                    format!("{where_}, then recovery, then an entry of exactly the size the torn record lacked, then a restart: {msg}"),
+                                    "batch-not-atomic-after-crash-and-completing-entry",
+                                    extra,
+                                ));
+                            }
+                        }
                         recovered.state
                     }
                     Err(crate::recover::RecoverError::Engine(msg)) => return Err(CaseError::Engine(msg)),
